@@ -34,7 +34,7 @@ It(c) == [k |-> "I", c |-> c]
 Bo(c) == [k |-> "B", c |-> c]
 Ht(tag, attrs, c) == [k |-> "H", tag |-> tag, attrs |-> attrs, c |-> c, void |-> FALSE]
 Cell(kind, attrs, c) == [kind |-> kind, attrs |-> attrs, content |-> c]
-Sty(sep, sp, q, first) == [sep |-> sep, sp |-> sp, q |-> q, first |-> first]
+Sty(sep, sp, q, first) == [sep |-> sep, sp |-> sp, q |-> q, first |-> first, hbar |-> FALSE]
 W(a) == <<T(<<a>>)>>
 Url1 == <<"http", ":", "/", "/", "e.x", "/", "p">>
 
@@ -95,7 +95,7 @@ Grid(r, c, sep, sp, x, y, s, t, u, cat, am) ==
                   cells |-> [j \in 1..c |-> Cell(KindAt(kp, i, j), AmAt(ca, i + j), ContentAt(i, j))]]]
   IN [k |-> "TB", tattrs |-> am[ta + 1], hascap |-> cp # 0, cattrs |-> IF cp = 2 THEN am[2] ELSE <<>>,
       caption |-> IF cp = 0 THEN <<>> ELSE cat[((s + t) % N) + 1],
-      rows |-> rows, style |-> Sty(sep, sp, q, first)]
+      rows |-> rows, style |-> [Sty(sep, sp, q, first) EXCEPT !.hbar = (s + y) % 2 = 1]]
 
 \* the parameter tuples of this Part (filtered before any grid is built)
 Key(w) == w[1] + 3 * w[2] + 5 * w[5] + 7 * w[6] + 11 * w[7] + 13 * w[8] + (IF w[4] THEN 1 ELSE 0)
